@@ -4,7 +4,7 @@ import pk, src
 from common import jhash, first_diff
 from pkgrun import *
 
-PROF = profile(tokens=True, no_textbox_in_link=True, rich_text=False, p_table=0.35, p_cell_block=0.5, p_sdt_block=0.12, p_textbox=0.08, p_style=0.5,
+PROF = profile(tokens=True, no_textbox_in_link=True, p_table=0.35, p_cell_block=0.5, p_sdt_block=0.12, p_textbox=0.08, p_style=0.5,
                p_grid_gap=0.0, p_sdt_cell=0.0, p_cell_nopar=0.0, max_depth=3, blocks=(1, 5))
 RULE = ('documents mixing free paragraphs and tables (tables nested in cells, text boxes and block content controls inside cells, tables '
         'in headers / footers / notes, tables first or last in the body, empty cells), both html settings; per paragraph record: lineage, '
